@@ -449,6 +449,11 @@ def serve_correspondence(ctx: Ctx) -> None:
                 ctx.report({"class": "daemon-dies-on-client-fault", "behaviour": culprit},
                            f"daemon not serving at step '{step}' after client behaviour '{culprit}'",
                            {"script": sc, "failed_at": i, "observations": obs})
+            elif (step == "good-check" or BEHAVIOURS.get(step, ("",))[0] == "good") and step != "hangup-before-reply" \
+                    and m_reply == "result" and real[2] != "result":
+                ctx.report({"class": "later-request-affected", "behaviour": ",".join(p for p in prior[:-1] if p not in NOT_FAULT)},
+                           f"well-formed request '{step}' got reply '{real[2]}' instead of a result after earlier client faults",
+                           {"script": sc, "failed_at": i, "observations": obs})
             elif not good_ok:
                 ctx.report({"class": "later-check-affected", "behaviour": ",".join(p for p in prior if p in FAULTS)},
                            "a later check request was answered differently from a daemon that never saw the faulty clients",
